@@ -579,6 +579,28 @@ func (x *Exec) callByContract(ct *Contract, callee *types.Func, n *ast.CallExpr,
 		x.heapField(post, h)
 		post.heap[h] = c.freshVal("call."+short+".heap."+h, ft, []string{SInt})
 	}
+	if len(ct.ModifiesHeap) > 0 {
+		// a callee that writes heap fields may also allocate: the allocation bound after the call is some value >= the
+		// bound before it (the callee's ensures, evaluated in the post state, say more - e.g. alloc == old(alloc))
+		var a string
+		if g, ok := post.ghost["alloc"]; ok {
+			a = g.(Sc).T
+		} else if x.entry != nil {
+			if g, ok := x.entry.ghost["alloc"]; ok {
+				a = g.(Sc).T
+			} else {
+				a = c.fresh("alloc0", SInt)
+				c.assumeDef(tGe(a, "0"))
+				x.entry.ghost["alloc"] = scInt(a)
+			}
+			pre.ghost["alloc"] = scInt(a)
+		}
+		if a != "" {
+			na := c.fresh("call."+short+".alloc", SInt)
+			c.assume(post.pc, tGe(na, a))
+			post.ghost["alloc"] = scInt(na)
+		}
+	}
 	// results
 	var res []Val
 	for i := 0; i < sig.Results().Len(); i++ {
